@@ -658,6 +658,19 @@ def c18(ctx):
             rec["expected"]["deactivated"] = not rec["expected"]["deactivated"]
 
     ctx.negctl_replay(["transform-replay"], summ["_first_edge"], wrong)
+
+    # the other direction: random operation lists (<= 12 operations, times / numbers from small, medium and large ranges,
+    # repeated references) through the real transformer, every reported list judged by TLC (TransformTrace.tla)
+    def corrupt_ops(ev):
+        if len(ev.get("reported", [])) < 1:
+            return None
+        ev = json.loads(json.dumps(ev))
+        ev["reported"][0]["t"] = ev["reported"][0]["t"] + 1
+        return ev
+
+    n = 600 if ctx.tier == "quick" else 20000
+    validate_trace(ctx, "transform", ["-n", str(n)], "TransformTrace.tla", "TransformTrace.cfg", "transform_trace.ndjson",
+                   histories=n, corrupt=corrupt_ops, key_of=lambda ev: "ops:%d:published=%s" % (len(ev.get("ops", [])), ev.get("published")))
     ctx.exhaustive = True
 
 
